@@ -887,4 +887,255 @@ theorem mem_instType (U : List Ty) (hU : ∀ u ∈ U, polys u = []) (bound : Nat
       · intro q hq
         exact lookup_map_name σ _ _ ⟨q, mem_dedup.mpr hq, rfl⟩
 
+/-! ### the universe -/
+
+theorem basics_node (l : TyL) (ks : List Ty) :
+    basics (.node l ks) = match l with
+      | .prim _ => [.node l ks]
+      | _ => if isInnerL l then ks.flatMap basics else [] := by
+  cases l <;> simp [basics, basicsList_eq]
+
+theorem basics_prim (t : Ty) : ∀ b ∈ basics t, (∃ n ks, b = .node (.prim n) ks) ∧ (wf t = true → wf b = true) := by
+  induction t using Ty.ind_aux with
+  | h l ks ih =>
+    intro b hb
+    rw [basics_node] at hb
+    cases l with
+    | prim n => simp only [List.mem_singleton] at hb; subst hb; exact ⟨⟨n, ks, rfl⟩, id⟩
+    | poly n => simp [isInnerL] at hb
+    | fpoly n => simp [isInnerL] at hb
+    | unknown => simp [isInnerL] at hb
+    | arrow =>
+      simp only [isInnerL, if_true, List.mem_flatMap] at hb
+      obtain ⟨k, hk, hb⟩ := hb
+      refine ⟨(ih k hk b hb).1, fun hw => (ih k hk b hb).2 ?_⟩
+      rw [wf_node, Bool.and_eq_true, List.all_eq_true] at hw; exact hw.2 k hk
+    | generic n =>
+      simp only [isInnerL, if_true, List.mem_flatMap] at hb
+      obtain ⟨k, hk, hb⟩ := hb
+      refine ⟨(ih k hk b hb).1, fun hw => (ih k hk b hb).2 ?_⟩
+      rw [wf_node, Bool.and_eq_true, List.all_eq_true] at hw; exact hw.2 k hk
+    | sum =>
+      simp only [isInnerL, if_true, List.mem_flatMap] at hb
+      obtain ⟨k, hk, hb⟩ := hb
+      refine ⟨(ih k hk b hb).1, fun hw => (ih k hk b hb).2 ?_⟩
+      rw [wf_node, Bool.and_eq_true, List.all_eq_true] at hw; exact hw.2 k hk
+
+theorem mem_basicTypes (P : List Prim) (b : Ty) : b ∈ basicTypes P ↔ IsBase P b := by
+  unfold basicTypes IsBase
+  rw [List.mem_filter, mem_dedup, List.mem_flatMap]
+  simp
+
+theorem mem_typeUniverse (P : List Prim) (u : Ty) : u ∈ typeUniverse (basicTypes P) ↔ InUniverse P u := by
+  unfold typeUniverse InUniverse
+  rw [mem_dedup, List.mem_append, List.mem_flatMap]
+  constructor
+  · rintro (h | ⟨b, hb, h⟩)
+    · exact ⟨u, (mem_basicTypes P u).mp h, Or.inl rfl⟩
+    · refine ⟨b, (mem_basicTypes P b).mp hb, ?_⟩
+      simp only [List.cons_append, List.nil_append, List.mem_cons, List.mem_map] at h
+      rcases h with h | h | ⟨b', hb', e⟩
+      · exact Or.inr (Or.inl h)
+      · exact Or.inr (Or.inr (Or.inl h))
+      · exact Or.inr (Or.inr (Or.inr ⟨b', (mem_basicTypes P b').mp hb', e.symm⟩))
+  · rintro ⟨b, hb, h⟩
+    have hb' := (mem_basicTypes P b).mpr hb
+    rcases h with h | h | h | ⟨b', hb2, e⟩
+    · subst h; exact Or.inl hb'
+    · exact Or.inr ⟨b, hb', by simp [h]⟩
+    · exact Or.inr ⟨b, hb', by simp [h]⟩
+    · exact Or.inr ⟨b, hb', by
+        simp only [List.cons_append, List.nil_append, List.mem_cons, List.mem_map]
+        exact Or.inr (Or.inr ⟨b', (mem_basicTypes P b').mpr hb2, e.symm⟩)⟩
+
+theorem isBase_prim {P : List Prim} {b : Ty} (h : IsBase P b) : ∃ n ks, b = .node (.prim n) ks := by
+  obtain ⟨⟨p, _, hb⟩, _⟩ := h
+  exact (basics_prim p.2 b hb).1
+
+theorem isBase_wf {P : List Prim} (hP : ∀ p ∈ P, wf p.2 = true) {b : Ty} (h : IsBase P b) : wf b = true := by
+  obtain ⟨⟨p, hp, hb⟩, _⟩ := h
+  exact (basics_prim p.2 b hb).2 (hP p hp)
+
+theorem polys_prim (n : String) (ks : List Ty) : polys (.node (.prim n) ks) = [] := by
+  rw [polys_node]; simp [isVarL, isInnerL]
+
+theorem inUniverse_ground {P : List Prim} {u : Ty} (h : InUniverse P u) : polys u = [] := by
+  obtain ⟨b, hb, h⟩ := h
+  obtain ⟨n, ks, e⟩ := isBase_prim hb
+  subst e
+  rcases h with h | h | h | ⟨b', hb', h⟩
+  · subst h; exact polys_prim n ks
+  · subst h; simp [Ty.list, Ty.generic, polys_node, isVarL, isInnerL]
+  · subst h; simp [Ty.list, Ty.generic, polys_node, isVarL, isInnerL]
+  · obtain ⟨n', ks', e'⟩ := isBase_prim hb'
+    subst e' h
+    simp [Ty.arrow, polys_node, isVarL, isInnerL]
+
+theorem inUniverse_wf {P : List Prim} (hP : ∀ p ∈ P, wf p.2 = true) {u : Ty} (h : InUniverse P u) :
+    wf u = true := by
+  obtain ⟨b, hb, h⟩ := h
+  have hw := isBase_wf hP hb
+  rcases h with h | h | h | ⟨b', hb', h⟩
+  · subst h; exact hw
+  · subst h; simp [Ty.list, Ty.generic, wf_node, wfNode, hw]
+  · subst h; simp [Ty.list, Ty.generic, wf_node, wfNode, hw]
+  · have hw' := isBase_wf hP hb'
+    subst h; simp [Ty.arrow, wf_node, wfNode, hw, hw']
+
+/-! ### unit arguments -/
+
+theorem mkArrows_arguments_returns (t : Ty) : mkArrows (arguments t) (returns t) = t := by
+  fun_induction arguments t with
+  | case1 a b ih => simp only [returns, mkArrows, Ty.arrow, ih]
+  | case2 t h =>
+    unfold returns
+    split
+    · rename_i a b; exact absurd rfl (h a b)
+    · rfl
+
+theorem arguments_returns (t : Ty) : arguments (returns t) = [] := by
+  fun_induction returns t with
+  | case1 a b ih => exact ih
+  | case2 t h =>
+    unfold arguments
+    split
+    · rename_i a b; exact absurd rfl (h a b)
+    · rfl
+
+theorem returns_returns (t : Ty) : returns (returns t) = returns t := by
+  fun_induction returns t with
+  | case1 a b ih => exact ih
+  | case2 t h =>
+    unfold returns
+    split
+    · rename_i a b; exact absurd rfl (h a b)
+    · rfl
+
+theorem arguments_mkArrows (as : List Ty) (r : Ty) (h : arguments r = []) : arguments (mkArrows as r) = as := by
+  induction as with
+  | nil => exact h
+  | cons a as ih => simp [mkArrows, Ty.arrow, arguments, ih]
+
+theorem returns_mkArrows (as : List Ty) (r : Ty) : returns (mkArrows as r) = returns r := by
+  induction as with
+  | nil => rfl
+  | cons a as ih => simp [mkArrows, Ty.arrow, returns, ih]
+
+/-- the specified removal has the arguments of `t` that are not unit, and the same result type -/
+theorem arguments_dropUnit (t : Ty) :
+    arguments (dropUnit t) = (arguments t).filter (fun a => a != Ty.unit) := by
+  unfold dropUnit; exact arguments_mkArrows _ _ (arguments_returns t)
+
+theorem returns_dropUnit (t : Ty) : returns (dropUnit t) = returns t := by
+  unfold dropUnit; rw [returns_mkArrows, returns_returns]
+
+theorem hasUnitArg_dropUnit (t : Ty) : hasUnitArg (dropUnit t) = false := by
+  unfold hasUnitArg
+  rw [arguments_dropUnit, List.any_eq_false]
+  intro a ha
+  rw [List.mem_filter] at ha
+  simpa using ha.2
+
+theorem dropUnit_of_noUnitArg (t : Ty) (h : hasUnitArg t = false) : dropUnit t = t := by
+  unfold dropUnit
+  have : (arguments t).filter (fun a => a != Ty.unit) = arguments t := by
+    rw [List.filter_eq_self]
+    intro a ha
+    unfold hasUnitArg at h
+    rw [List.any_eq_false] at h
+    simpa using h a ha
+  rw [this, mkArrows_arguments_returns]
+
+theorem arguments_of_not_arrow (t : Ty) (h : ∀ a b, t = .node .arrow [a, b] → False) : arguments t = [] := by
+  unfold arguments
+  split
+  · rename_i a b; exact absurd rfl (h a b)
+  · rfl
+
+theorem returns_of_not_arrow (t : Ty) (h : ∀ a b, t = .node .arrow [a, b] → False) : returns t = t := by
+  unfold returns
+  split
+  · rename_i a b; exact absurd rfl (h a b)
+  · rfl
+
+theorem withoutUnit_of_not_arrow (t : Ty) (h : ∀ a b, t = .node .arrow [a, b] → False) : withoutUnit t = t :=
+  withoutUnit.eq_3 t h
+
+theorem dropUnit_arrow (a b : Ty) :
+    dropUnit (.node .arrow [a, b]) = if a = Ty.unit then dropUnit b else Ty.arrow a (dropUnit b) := by
+  unfold dropUnit
+  by_cases h : a = Ty.unit
+  · subst h; simp [arguments, returns]
+  · have h' : (a != Ty.unit) = true := by simpa using h
+    simp [arguments, returns, h', h, mkArrows]
+
+theorem withoutUnit_arrow_safe (a b : Ty) (h : returnsUnitFn a = false) :
+    withoutUnit (.node .arrow [a, b]) = if a = Ty.unit then withoutUnit b else Ty.arrow a (withoutUnit b) := by
+  by_cases hx : ∃ x y, a = .node .arrow [x, y]
+  · obtain ⟨x, y, e⟩ := hx
+    subst e
+    have : ¬ y = Ty.unit := by simpa [returnsUnitFn] using h
+    rw [withoutUnit.eq_1]
+    simp [this]
+  · exact withoutUnit.eq_2 a b (fun x y e => hx ⟨x, y, e⟩)
+
+/-- outside the region of finding C14-F4, `without_unit_arguments` is the specified removal -/
+theorem withoutUnit_eq_dropUnit (t : Ty) : hasUnitRetArg t = false → withoutUnit t = dropUnit t := by
+  induction t using arguments.induct with
+  | case1 a b ih =>
+    intro h
+    simp only [hasUnitRetArg, arguments, List.any_cons, Bool.or_eq_false_iff] at h
+    rw [withoutUnit_arrow_safe a b h.1, dropUnit_arrow, ih h.2]
+  | case2 t h =>
+    intro _
+    rw [withoutUnit_of_not_arrow t h]
+    unfold dropUnit
+    simp [arguments_of_not_arrow t h, returns_of_not_arrow t h, mkArrows]
+
+/-- `without_unit_arguments` keeps any property of types that holds for an arrow exactly when
+    it holds for both sides (no variable, no sum, …) -/
+theorem withoutUnit_preserves (Q : Ty → Prop) (hQ : ∀ a b, Q (.node .arrow [a, b]) ↔ Q a ∧ Q b) (t : Ty) :
+    Q t → Q (withoutUnit t) := by
+  induction t using arguments.induct with
+  | case1 a b ih =>
+    intro h
+    have hab := (hQ a b).mp h
+    have hb := ih hab.2
+    by_cases hx : ∃ x y, a = .node .arrow [x, y]
+    · obtain ⟨x, y, e⟩ := hx
+      subst e
+      have hxy := (hQ x y).mp hab.1
+      rw [withoutUnit.eq_1]
+      split
+      · exact hb
+      · split
+        · exact (hQ _ _).mpr ⟨hxy.1, hb⟩
+        · exact (hQ _ _).mpr ⟨hab.1, hb⟩
+    · rw [withoutUnit.eq_2 a b (fun x y e => hx ⟨x, y, e⟩)]
+      split
+      · exact hb
+      · exact (hQ _ _).mpr ⟨hab.1, hb⟩
+  | case2 t h => intro hq; rw [withoutUnit_of_not_arrow t h]; exact hq
+
+theorem polys_arrow (a b : Ty) : polys (.node .arrow [a, b]) = [] ↔ polys a = [] ∧ polys b = [] := by
+  rw [polys_node]; simp [isVarL, isInnerL]
+
+theorem hasSum_arrow (a b : Ty) : hasSum (.node .arrow [a, b]) = false ↔ hasSum a = false ∧ hasSum b = false := by
+  rw [hasSum_node]; simp [isInnerL]
+
+/-- the type after the unit pass -/
+theorem unitStep_snd (p : Prim) : (unitStep p).2 = if hasUnitArg p.2 then withoutUnit p.2 else p.2 := by
+  unfold unitStep; split <;> rfl
+
+theorem unitStep_fst (p : Prim) : (unitStep p).1 = p.1 := by
+  unfold unitStep; split <;> rfl
+
+theorem unitStep_safe (p : Prim) (h : unitSafe p.2 = true) : unitStep p = (p.1, dropUnit p.2) := by
+  unfold unitStep
+  by_cases hu : hasUnitArg p.2 = true
+  · have : hasUnitRetArg p.2 = false := by simpa [unitSafe, hu] using h
+    simp [hu, withoutUnit_eq_dropUnit _ this]
+  · have hu' : hasUnitArg p.2 = false := by simpa using hu
+    simp [hu', dropUnit_of_noUnitArg _ hu']
+
 end PS.Dsl
